@@ -48,6 +48,7 @@ class Source(Stream):
         """set self.stopped, which will cause polling to stop after next run"""
         if not self.stopped:
             self.stopped = True
+            self._start_pending = False
 
     def start(self):
         """start polling
@@ -61,15 +62,25 @@ class Source(Stream):
             if not getattr(self, '_running', False):
                 self._running = True
                 self.loop.add_callback(self._run_once)
+            else:
+                self._start_pending = True
 
     async def _run_once(self):
         # at most one ``run`` at a time: a polling loop that is still suspended
         # (sleeping, or waiting for downstream) simply carries on when the
         # source is started again
         try:
-            result = self.run()
-            if isawaitable(result):
-                await result
+            while True:
+                self._start_pending = False
+                result = self.run()
+                if isawaitable(result):
+                    await result
+                # ``run`` may have seen the stop and be winding down (a
+                # tornado coroutine or a Task takes a loop iteration to hand
+                # its end over) when the next start() arrives: that start
+                # found a loop alive and scheduled nothing, so honour it here
+                if self.stopped or not getattr(self, '_start_pending', False):
+                    break
         finally:
             self._running = False
 
